@@ -1,8 +1,851 @@
-//! C31 — not built yet.
+//! C31 — serialization round-trips, tolerates any byte alignment (DESIGN §4 C31).
+//!
+//! Sub-checks
+//!  * `alignment-grid` (enumerated): every (word count, start offset 0..7 inside a
+//!    16-byte-aligned buffer, length remainder 0..7) combination through
+//!    `bytes_to_words_vec`, `try_bytes_to_words`, `bytes_to_words` (aligned only) and
+//!    both `SemiIndex::from_bytes`.
+//!  * `words-bytes-roundtrip` (generated): G-bits word vectors through
+//!    `words_to_bytes` (vs `to_le_bytes`) and back, at all 8 alignments.
+//!  * `rebuilt-json-index` (generated): a local generator of valid JSON texts;
+//!    `JsonIndex::from_parts` over words that went through the byte round trip (owned and
+//!    borrowed) vs the original index on a full cursor walk + IB rank/select + BP queries,
+//!    plus by-construction node positions.
+//!  * `rebuilt-bp` (generated): `BalancedParens::from_words` (owned copy / borrowed
+//!    `&[u64]` out of bytes) vs `BalancedParens::new` on every navigation query.
 use crate::engine::*;
+use crate::gen::bits;
+use serde_json::{json, Value};
+use succinctly::binary;
+use succinctly::json::JsonIndex;
+use succinctly::BalancedParens;
 
-pub const RULE: &str = "not built";
+pub const RULE: &str = "word vectors (G-bits, 0..=2000 words; thorough 20 000) serialized with words_to_bytes and compared byte-for-byte with to_le_bytes; the bytes copied to every start offset 0..7 of a 16-byte-aligned buffer and cut to every length remainder 0..7 (mod 8), then bytes_to_words_vec / try_bytes_to_words / SemiIndex::from_bytes (both cursors) compared with from_le_bytes decoding (bad length: try_ form must answer None without panicking; the panicking forms are not called); borrowed bytes_to_words only on 8-aligned input. JSON documents from a local constructive generator (nested arrays/objects/strings with escapes and UTF-8/numbers/literals, 3 whitespace styles, repeated-element arrays up to 400 elements) indexed with JsonIndex::build, parts serialized, moved to a random alignment, deserialized and rebuilt with JsonIndex::from_parts (owned Vec and borrowed &[u64]); rebuilt vs original on a full pre-order cursor walk (bp position, text position, text range, container flag, value kind, raw bytes, parent), ib_rank1 at every byte, ib_select1/ib_select1_from for every k (+2 past the end), BP len/rank1/excess/find_close/find_open/enclose/first_child/next_sibling/parent at every position, and node starts against the generator's span list. BalancedParens::from_words vs new on the same queries over balanced sequences and raw G-bits words with stray bits past len. Non-trivial: a misaligned slice of >=16 bytes, or a rebuilt index over a document with >=10 nodes; distinct by hash(words|text, alignment).";
+
+const MISALIGNED_PANIC: &str = "TargetAlignmentGreaterAndInputNotAligned";
+
+// ---------------------------------------------------------------- aligned scratch buffer
+
+/// A byte buffer whose `at(off, len)` slices start exactly `off` bytes after a
+/// 16-byte-aligned address (safe code: over-allocate and skip to the boundary).
+pub struct AlignedBuf {
+    raw: Vec<u8>,
+    pad: usize,
+}
+
+impl AlignedBuf {
+    pub fn new(capacity: usize) -> Self {
+        let raw = vec![0xA5u8; capacity + 48];
+        let base = raw.as_ptr() as usize;
+        let pad = (16 - base % 16) % 16;
+        AlignedBuf { raw, pad }
+    }
+    /// place `data` at offset `off` (0..16) from the aligned boundary and return that slice
+    pub fn place(&mut self, off: usize, data: &[u8]) -> &[u8] {
+        let s = self.pad + off;
+        self.raw[s..s + data.len()].copy_from_slice(data);
+        let out = &self.raw[s..s + data.len()];
+        debug_assert_eq!((out.as_ptr() as usize).wrapping_sub(off) % 16, 0);
+        out
+    }
+}
+
+/// Model: little-endian bytes of the words.
+pub fn le_bytes(words: &[u64]) -> Vec<u8> {
+    let mut v = Vec::with_capacity(words.len() * 8);
+    for w in words {
+        v.extend_from_slice(&w.to_le_bytes());
+    }
+    v
+}
+
+/// Model: little-endian decoding (length must be a multiple of 8).
+pub fn le_words(bytes: &[u8]) -> Vec<u64> {
+    bytes.chunks_exact(8).map(|c| u64::from_le_bytes([c[0], c[1], c[2], c[3], c[4], c[5], c[6], c[7]])).collect()
+}
+
+fn whex(w: &[u64]) -> Vec<String> {
+    w.iter().take(64).map(|x| format!("{:016x}", x)).collect()
+}
+
+/// Collects failures of the known-finding shapes so the rest of the case is still checked.
+#[derive(Default)]
+struct Deferred(Option<Fail>);
+impl Deferred {
+    fn put(&mut self, f: Fail) {
+        if self.0.is_none() {
+            self.0 = Some(f);
+        }
+    }
+    fn finish(self) -> Result<(), Fail> {
+        match self.0 {
+            Some(f) => Err(f),
+            None => Ok(()),
+        }
+    }
+}
+
+/// All conversions on one slice placed at `off`. `payload` is the byte string (any length).
+fn check_slice(payload: &[u8], off: usize, buf: &mut AlignedBuf, def: &mut Deferred, st: &mut Stats) -> Result<(), Fail> {
+    let s = buf.place(off, payload);
+    let addr_mod8 = s.as_ptr() as usize % 8;
+    let aligned = addr_mod8 == 0 || s.is_empty();
+    let info = || json!({"start_offset_in_16_aligned_buffer": off, "address_mod_8": addr_mod8, "len": s.len(), "bytes_hex": hex(&s[..s.len().min(64)])});
+    if s.len() % 8 != 0 {
+        // bad length: the fallible form answers None, never panics (the other forms document a panic: not called)
+        st.evals(1);
+        match catch(|| binary::try_bytes_to_words(s).map(|w| w.to_vec())) {
+            Ok(None) => {}
+            Ok(Some(w)) => fail!("C31/try_bytes_to_words/bad-length/some", {"case": info(), "actual": whex(&w)}),
+            Err((loc, msg)) => fail!("C31/try_bytes_to_words/bad-length/panic", {"case": info(), "panic": msg, "location": loc}),
+        }
+        return Ok(());
+    }
+    let exp = le_words(s);
+    // owning conversion: must succeed at any alignment
+    st.evals(1);
+    match catch(|| binary::bytes_to_words_vec(s)) {
+        Ok(w) => check_eq!("C31/bytes_to_words_vec/wrong-words", exp, w, {"case": info()}),
+        Err((loc, msg)) => {
+            if !aligned && msg.contains(MISALIGNED_PANIC) {
+                def.put(Fail::new(format!("C31/bytes_to_words_vec/misaligned-slice/panic:{}", MISALIGNED_PANIC), json!({"case": info(), "expected": whex(&exp), "panic": msg, "location": loc})));
+            } else {
+                fail!("C31/bytes_to_words_vec/panic", {"case": info(), "panic": msg, "location": loc});
+            }
+        }
+    }
+    // fallible borrowed conversion: never panics; Some(correct) when the memory is 8-aligned,
+    // otherwise correct words or None (a &[u64] to misaligned memory cannot exist)
+    st.evals(1);
+    match catch(|| binary::try_bytes_to_words(s).map(|w| w.to_vec())) {
+        Ok(Some(w)) => check_eq!("C31/try_bytes_to_words/wrong-words", exp, w, {"case": info()}),
+        Ok(None) => {
+            if aligned {
+                fail!("C31/try_bytes_to_words/none-for-good-length-aligned", {"case": info()});
+            }
+        }
+        Err((loc, msg)) => {
+            if !aligned && msg.contains(MISALIGNED_PANIC) {
+                def.put(Fail::new(format!("C31/try_bytes_to_words/misaligned-slice/panic:{}", MISALIGNED_PANIC), json!({"case": info(), "expected": "Some(words) or None, never a panic", "panic": msg, "location": loc})));
+            } else {
+                fail!("C31/try_bytes_to_words/panic", {"case": info(), "panic": msg, "location": loc});
+            }
+        }
+    }
+    // SemiIndex::from_bytes (owning) for both cursors: ib from this slice, bp from this slice
+    for which in ["standard", "simple"] {
+        st.evals(1);
+        let r = catch(|| {
+            if which == "standard" {
+                let x = succinctly::json::standard::SemiIndex::from_bytes(s, s);
+                (x.ib, x.bp)
+            } else {
+                let x = succinctly::json::simple::SemiIndex::from_bytes(s, s);
+                (x.ib, x.bp)
+            }
+        });
+        match r {
+            Ok((ib, bp)) => {
+                check_eq!(format!("C31/SemiIndex::from_bytes/{}/wrong-ib", which), exp, ib, {"case": info()});
+                check_eq!(format!("C31/SemiIndex::from_bytes/{}/wrong-bp", which), exp, bp, {"case": info()});
+            }
+            Err((loc, msg)) => {
+                if !aligned && msg.contains(MISALIGNED_PANIC) {
+                    def.put(Fail::new(format!("C31/SemiIndex::from_bytes/misaligned-slice/panic:{}", MISALIGNED_PANIC), json!({"case": info(), "cursor": which, "panic": msg, "location": loc})));
+                } else {
+                    fail!(format!("C31/SemiIndex::from_bytes/{}/panic", which), {"case": info(), "panic": msg, "location": loc});
+                }
+            }
+        }
+    }
+    // borrowed conversion: aligned input only
+    if aligned {
+        st.evals(1);
+        let w = binary::bytes_to_words(s);
+        check_eq!("C31/bytes_to_words/aligned/wrong-words", exp.as_slice(), w, {"case": info()});
+    }
+    Ok(())
+}
+
+/// words -> bytes -> (every alignment, every length remainder) -> words
+fn check_words(words: &[u64], remainders: bool, buf: &mut AlignedBuf, def: &mut Deferred, st: &mut Stats) -> Result<(), Fail> {
+    let model = le_bytes(words);
+    let bytes = binary::words_to_bytes(words);
+    st.evals(1);
+    if bytes != model.as_slice() {
+        fail!("C31/words_to_bytes/not-little-endian", {"words": whex(words), "expected": hex(&model[..model.len().min(64)]), "actual": hex(&bytes[..bytes.len().min(64)])});
+    }
+    // straight round trip on the slice words_to_bytes returned (aligned by construction)
+    st.evals(3);
+    let back = binary::bytes_to_words_vec(bytes);
+    check_eq!("C31/roundtrip/bytes_to_words_vec", words, back.as_slice(), {"words": whex(words)});
+    check_eq!("C31/roundtrip/bytes_to_words", words, binary::bytes_to_words(bytes), {"words": whex(words)});
+    check_eq!("C31/roundtrip/try_bytes_to_words", Some(words), binary::try_bytes_to_words(bytes), {"words": whex(words)});
+    for off in 0..8 {
+        check_slice(&model, off, buf, def, st)?;
+        if remainders {
+            for r in 1..8 {
+                // cut r bytes off the end (bad length) and also r*... keep a good length shorter slice
+                if model.len() >= r {
+                    check_slice(&model[..model.len() - r], off, buf, def, st)?;
+                }
+                if model.len() >= 8 {
+                    // good length, but starting r bytes into the data: different content phase
+                    let l = (model.len() - r) / 8 * 8;
+                    check_slice(&model[r..r + l], off, buf, def, st)?;
+                }
+            }
+        }
+    }
+    Ok(())
+}
+
+// ---------------------------------------------------------------- local JSON generator
+
+pub struct Doc {
+    pub text: Vec<u8>,
+    /// start offset of every node in pre-order (object members contribute key then value)
+    pub starts: Vec<usize>,
+}
+
+struct JGen {
+    out: Vec<u8>,
+    starts: Vec<usize>,
+    ws: u8,
+    budget: usize,
+}
+
+impl JGen {
+    fn gap(&mut self, u: &mut Src) {
+        match self.ws {
+            0 => {}
+            1 => {
+                if u.ratio(1, 3) {
+                    self.out.push(b' ')
+                }
+            }
+            _ => {
+                let k = u.below(4);
+                for _ in 0..k {
+                    self.out.push(*u.pick(&[b' ', b'\n', b'\t', b'\r', b' ', b'\n']));
+                }
+            }
+        }
+    }
+    fn string(&mut self, u: &mut Src) {
+        self.out.push(b'"');
+        let n = u.below(10);
+        for _ in 0..n {
+            match u.below(16) {
+                0 => self.out.extend_from_slice(b"\\\""),
+                1 => self.out.extend_from_slice(b"\\\\"),
+                2 => self.out.extend_from_slice(b"\\n"),
+                3 => self.out.extend_from_slice(b"\\u00e9"),
+                4 => self.out.extend_from_slice("é".as_bytes()),
+                5 => self.out.extend_from_slice("\u{1F600}".as_bytes()),
+                6 => self.out.extend_from_slice(b"\\ud83d\\ude00"),
+                7 => self.out.push(*u.pick(&[b'{', b'}', b'[', b']', b',', b':', b' '])),
+                _ => self.out.push(b'a' + u.below(26) as u8),
+            }
+        }
+        self.out.push(b'"');
+    }
+    fn number(&mut self, u: &mut Src) {
+        if u.ratio(1, 4) {
+            self.out.push(b'-');
+        }
+        match u.below(4) {
+            0 => self.out.push(b'0'),
+            _ => {
+                self.out.push(b'1' + u.below(9) as u8);
+                let k = u.below(6);
+                for _ in 0..k {
+                    self.out.push(b'0' + u.below(10) as u8);
+                }
+            }
+        }
+        if u.ratio(1, 4) {
+            self.out.push(b'.');
+            let k = u.range(1, 4);
+            for _ in 0..k {
+                self.out.push(b'0' + u.below(10) as u8);
+            }
+        }
+        if u.ratio(1, 6) {
+            self.out.push(*u.pick(&[b'e', b'E']));
+            if u.bool() {
+                self.out.push(*u.pick(&[b'+', b'-']));
+            }
+            self.out.push(b'0' + u.below(10) as u8);
+        }
+    }
+    fn value(&mut self, u: &mut Src, depth: usize) {
+        self.starts.push(self.out.len());
+        self.budget = self.budget.saturating_sub(1);
+        let container_ok = depth < 7 && self.budget > 0;
+        // the root is a container 7 times out of 8 (a scalar root is a 1-node index)
+        let kind = if !container_ok {
+            u.below(6)
+        } else if depth == 0 && !u.ratio(1, 8) {
+            6 + u.below(3)
+        } else {
+            u.below(9)
+        };
+        match kind {
+            0 => self.out.extend_from_slice(b"null"),
+            1 => self.out.extend_from_slice(b"true"),
+            2 => self.out.extend_from_slice(b"false"),
+            3 | 4 => self.number(u),
+            5 => self.string(u),
+            6 | 7 => {
+                self.out.push(b'[');
+                let n = if depth == 0 { u.range(0, 12) } else { u.below(7) };
+                self.gap(u);
+                for i in 0..n {
+                    if self.budget == 0 {
+                        break;
+                    }
+                    if i > 0 {
+                        self.out.push(b',');
+                        self.gap(u);
+                    }
+                    self.value(u, depth + 1);
+                    self.gap(u);
+                }
+                self.out.push(b']');
+            }
+            _ => {
+                self.out.push(b'{');
+                let n = u.below(6);
+                self.gap(u);
+                for i in 0..n {
+                    if self.budget == 0 {
+                        break;
+                    }
+                    if i > 0 {
+                        self.out.push(b',');
+                        self.gap(u);
+                    }
+                    self.starts.push(self.out.len());
+                    self.string(u);
+                    self.gap(u);
+                    self.out.push(b':');
+                    self.gap(u);
+                    self.value(u, depth + 1);
+                    self.gap(u);
+                }
+                self.out.push(b'}');
+            }
+        }
+    }
+}
+
+pub fn gen_doc(u: &mut Src, max_repeat: usize) -> Doc {
+    let ws = u.below(3) as u8;
+    let budget = if u.ratio(1, 5) { u.range(1, 12) } else { u.range(8, 160) };
+    if u.ratio(1, 4) {
+        // a big array of a repeated small element: crosses word/block boundaries of IB and BP
+        let mut g = JGen { out: vec![], starts: vec![], ws, budget: budget.min(12) };
+        g.value(u, 5);
+        let reps = u.range(1, max_repeat);
+        let sep: &[u8] = *u.pick(&[&b","[..], &b", "[..], &b",\n  "[..]]);
+        let mut text = vec![b'['];
+        let mut starts = vec![0usize];
+        for r in 0..reps {
+            if r > 0 {
+                text.extend_from_slice(sep);
+            }
+            let base = text.len();
+            starts.extend(g.starts.iter().map(|s| s + base));
+            text.extend_from_slice(&g.out);
+        }
+        text.push(b']');
+        return Doc { text, starts };
+    }
+    let mut g = JGen { out: vec![], starts: vec![], ws, budget };
+    let lead = if ws == 2 { u.below(3) } else { 0 };
+    for _ in 0..lead {
+        g.out.push(*u.pick(&[b' ', b'\n']));
+    }
+    g.value(u, 0);
+    if ws == 2 && u.bool() {
+        g.out.push(b'\n');
+    }
+    Doc { text: g.out, starts: g.starts }
+}
+
+// ---------------------------------------------------------------- index comparison
+
+fn kind_of<W: AsRef<[u64]>>(v: &succinctly::json::StandardJson<'_, W>) -> String {
+    use succinctly::json::StandardJson as S;
+    match v {
+        S::String(s) => format!("string:{}", show_bytes(s.raw_bytes())),
+        S::Number(n) => format!("number:{}", show_bytes(n.raw_bytes())),
+        S::Object(_) => "object".into(),
+        S::Array(_) => "array".into(),
+        S::Bool(b) => format!("bool:{}", b),
+        S::Null => "null".into(),
+        S::Error(e) => format!("error:{}", e),
+    }
+}
+
+/// Everything observable about one index, in a canonical order.
+fn observe<W: AsRef<[u64]>>(idx: &JsonIndex<W>, text: &[u8], dense: bool, probes: &[usize]) -> Vec<(String, String)> {
+    let mut o: Vec<(String, String)> = Vec::new();
+    o.push(("ib_len".into(), idx.ib_len().to_string()));
+    o.push(("ib_words".into(), format!("{:?}", idx.ib().len())));
+    o.push(("bp_len".into(), idx.bp().len().to_string()));
+    o.push(("bp_total_ones".into(), idx.bp().total_ones().to_string()));
+    // pre-order walk with an explicit stack
+    let mut stack = vec![idx.root(text)];
+    let mut count = 0usize;
+    if idx.bp().len() > 0 {
+        while let Some(c) = stack.pop() {
+            count += 1;
+            let kids: Vec<_> = c.children().collect();
+            o.push((
+                format!("node@bp{}", c.bp_position()),
+                format!(
+                    "pos={:?} range={:?} container={} kind={} raw={:?} parent={:?} first_child={:?} next_sibling={:?} nkids={}",
+                    c.text_position(),
+                    c.text_range(),
+                    c.is_container(),
+                    kind_of(&c.value()),
+                    c.raw_bytes().map(|b| hash_bytes(b)),
+                    c.parent().map(|p| p.bp_position()),
+                    c.first_child().map(|p| p.bp_position()),
+                    c.next_sibling().map(|p| p.bp_position()),
+                    kids.len()
+                ),
+            ));
+            for k in kids.into_iter().rev() {
+                stack.push(k);
+            }
+        }
+    }
+    o.push(("walk_nodes".into(), count.to_string()));
+    // IB rank / select
+    let n = text.len();
+    let ones = idx.ib_rank1(n + 64);
+    if dense {
+        let mut h = 0u64;
+        for p in 0..=n + 65 {
+            h = mix64(h ^ idx.ib_rank1(p) as u64);
+        }
+        o.push(("ib_rank1[0..=n+65]".into(), format!("{:016x}", h)));
+        for k in 0..ones + 2 {
+            o.push((format!("ib_select1({})", k), format!("{:?}", idx.ib_select1(k))));
+        }
+        for k in 0..ones + 2 {
+            for hint in [0usize, k / 8, k / 2, ones, usize::MAX / 2] {
+                o.push((format!("ib_select1_from({},{})", k, hint), format!("{:?}", idx.ib_select1_from(k, hint))));
+            }
+        }
+    }
+    for &p in probes {
+        o.push((format!("ib_rank1({})", p), idx.ib_rank1(p % (n + 70)).to_string()));
+        let k = p % (ones + 3);
+        o.push((format!("ib_select1({})", k), format!("{:?}", idx.ib_select1(k))));
+        o.push((format!("ib_select1_from({},{})", k, p % 97), format!("{:?}", idx.ib_select1_from(k, p % 97))));
+    }
+    // BP queries
+    let bp = idx.bp();
+    let bl = bp.len();
+    let pts: Vec<usize> = if dense { (0..bl + 2).collect() } else { probes.iter().map(|p| p % (bl + 2)).collect() };
+    for p in pts {
+        o.push((
+            format!("bp@{}", p),
+            format!(
+                "open={} rank1={} excess={} find_close={:?} find_open={:?} enclose={:?} first_child={:?} next_sibling={:?} parent={:?} subtree={:?}",
+                bp.is_open(p),
+                bp.rank1(p),
+                bp.excess(p),
+                bp.find_close(p),
+                bp.find_open(p),
+                bp.enclose(p),
+                bp.first_child(p),
+                bp.next_sibling(p),
+                bp.parent(p),
+                bp.subtree_size(p)
+            ),
+        ));
+    }
+    o
+}
+
+fn first_diff(a: &[(String, String)], b: &[(String, String)]) -> Option<(String, String, String)> {
+    for i in 0..a.len().max(b.len()) {
+        match (a.get(i), b.get(i)) {
+            (Some(x), Some(y)) if x == y => {}
+            (x, y) => {
+                let q = x.or(y).map(|t| t.0.clone()).unwrap_or_default();
+                return Some((q, format!("{:?}", x), format!("{:?}", y)));
+            }
+        }
+    }
+    None
+}
+
+/// query family for the signature: "node@bp12" -> "node", "ib_select1(3)" -> "ib_select1"
+fn family(q: &str) -> String {
+    q.split(|c| c == '@' || c == '(' || c == '[').next().unwrap_or(q).to_string()
+}
+
+/// Deserialize `bytes` (placed at alignment `off`) with the owning conversion; on the
+/// known misaligned panic fall back to the model decoding so the comparison continues.
+fn load_words(bytes: &[u8], off: usize, buf: &mut AlignedBuf, def: &mut Deferred) -> Result<Vec<u64>, Fail> {
+    let s = buf.place(off, bytes);
+    let aligned = s.as_ptr() as usize % 8 == 0 || s.is_empty();
+    match catch(|| binary::bytes_to_words_vec(s)) {
+        Ok(w) => Ok(w),
+        Err((loc, msg)) => {
+            if !aligned && msg.contains(MISALIGNED_PANIC) {
+                def.put(Fail::new(format!("C31/bytes_to_words_vec/misaligned-slice/panic:{}", MISALIGNED_PANIC), json!({"len": s.len(), "start_offset_in_16_aligned_buffer": off, "panic": msg, "location": loc})));
+                Ok(le_words(s))
+            } else {
+                Err(Fail::new("C31/bytes_to_words_vec/panic", json!({"panic": msg, "location": loc, "len": s.len(), "offset": off})))
+            }
+        }
+    }
+}
+
+fn check_doc(doc: &Doc, off_ib: usize, off_bp: usize, probes: &[usize], st: &mut Stats) -> Result<(), Fail> {
+    let text = &doc.text;
+    let mut def = Deferred::default();
+    let orig = JsonIndex::build(text);
+    let dense = text.len() <= 1500;
+    let info = || json!({"json": show_bytes(text), "json_len": text.len(), "ib_bytes_offset": off_ib, "bp_bytes_offset": off_bp});
+    // by construction: the walk visits exactly the generated nodes at their start offsets
+    {
+        let mut got = Vec::with_capacity(doc.starts.len());
+        let mut stack = vec![orig.root(text)];
+        while let Some(c) = stack.pop() {
+            got.push(c.text_position());
+            let kids: Vec<_> = c.children().collect();
+            for k in kids.into_iter().rev() {
+                stack.push(k);
+            }
+        }
+        let exp: Vec<Option<usize>> = doc.starts.iter().map(|&s| Some(s)).collect();
+        st.evals(exp.len() as u64);
+        if got != exp {
+            let i = (0..got.len().max(exp.len())).find(|&i| got.get(i) != exp.get(i)).unwrap_or(0);
+            fail!("C31/original-index/node-starts-vs-generator", {"case": info(), "first_difference_at_preorder_index": i, "expected": format!("{:?}", exp.get(i)), "actual": format!("{:?}", got.get(i))});
+        }
+    }
+    let base = observe(&orig, text, dense, probes);
+    st.evals(base.len() as u64);
+    // serialize
+    let ib_bytes = binary::words_to_bytes(orig.ib()).to_vec();
+    let bp_bytes = binary::words_to_bytes(orig.bp().words()).to_vec();
+    let mut buf = AlignedBuf::new(ib_bytes.len().max(bp_bytes.len()) + 16);
+    let ib2 = load_words(&ib_bytes, off_ib, &mut buf, &mut def)?;
+    let bp2 = load_words(&bp_bytes, off_bp, &mut buf, &mut def)?;
+    check_eq!("C31/rebuilt/ib-words-differ", orig.ib(), ib2.as_slice(), {"case": info()});
+    check_eq!("C31/rebuilt/bp-words-differ", orig.bp().words(), bp2.as_slice(), {"case": info()});
+    // owned rebuild
+    let rebuilt = JsonIndex::from_parts(ib2.clone(), orig.ib_len(), bp2.clone(), orig.bp().len());
+    let o2 = observe(&rebuilt, text, dense, probes);
+    st.evals(o2.len() as u64);
+    if let Some((q, a, b)) = first_diff(&base, &o2) {
+        fail!(format!("C31/rebuilt-owned/{}", family(&q)), {"case": info(), "query": q, "original": a, "rebuilt": b});
+    }
+    // borrowed rebuild: &[u64] views of aligned byte buffers
+    {
+        let mut b1 = AlignedBuf::new(ib_bytes.len() + 16);
+        let mut b2 = AlignedBuf::new(bp_bytes.len() + 16);
+        let s1 = b1.place(*[0usize, 8].get(off_ib % 2).unwrap(), &ib_bytes);
+        let s2 = b2.place(*[0usize, 8].get(off_bp % 2).unwrap(), &bp_bytes);
+        let w1: &[u64] = binary::bytes_to_words(s1);
+        let w2: &[u64] = binary::bytes_to_words(s2);
+        let borrowed: JsonIndex<&[u64]> = JsonIndex::from_parts(w1, orig.ib_len(), w2, orig.bp().len());
+        let o3 = observe(&borrowed, text, dense, probes);
+        st.evals(o3.len() as u64);
+        if let Some((q, a, b)) = first_diff(&base, &o3) {
+            fail!(format!("C31/rebuilt-borrowed/{}", family(&q)), {"case": info(), "query": q, "original": a, "rebuilt": b});
+        }
+    }
+    // SemiIndex route: what a loader of the two-file format does
+    {
+        let semi = succinctly::json::standard::build_semi_index(text);
+        let restored = succinctly::json::standard::SemiIndex::from_bytes(semi.ib_as_bytes(), semi.bp_as_bytes());
+        check_eq!("C31/SemiIndex/ib-roundtrip", semi.ib, restored.ib, {"case": info()});
+        check_eq!("C31/SemiIndex/bp-roundtrip", semi.bp, restored.bp, {"case": info()});
+        let bp_len = 2 * restored.bp.iter().map(|w| w.count_ones() as usize).sum::<usize>();
+        let from_semi = JsonIndex::from_parts(restored.ib, text.len(), restored.bp, bp_len);
+        let o4 = observe(&from_semi, text, dense, probes);
+        st.evals(o4.len() as u64);
+        if let Some((q, a, b)) = first_diff(&base, &o4) {
+            fail!(format!("C31/rebuilt-from-semi-index/{}", family(&q)), {"case": info(), "query": q, "original": a, "rebuilt": b});
+        }
+    }
+    def.finish()
+}
+
+// ---------------------------------------------------------------- BalancedParens::from_words vs new
+
+fn observe_bp<W: AsRef<[u64]>>(bp: &BalancedParens<W>, pts: &[usize]) -> Vec<(String, String)> {
+    let mut o = vec![("len".to_string(), bp.len().to_string()), ("total_ones".into(), bp.total_ones().to_string()), ("total_zeros".into(), bp.total_zeros().to_string())];
+    for &p in pts {
+        let r = catch(|| {
+            format!(
+                "open={} close={} rank1={} rank0={} excess={} find_close={:?} find_open={:?} enclose={:?} first_child={:?} next_sibling={:?} parent={:?} depth={:?} subtree={:?} select0={:?}",
+                bp.is_open(p),
+                bp.is_close(p),
+                bp.rank1(p),
+                bp.rank0(p),
+                bp.excess(p),
+                bp.find_close(p),
+                bp.find_open(p),
+                bp.enclose(p),
+                bp.first_child(p),
+                bp.next_sibling(p),
+                bp.parent(p),
+                bp.depth(p),
+                bp.subtree_size(p),
+                bp.select0(p)
+            )
+        });
+        o.push((format!("bp@{}", p), match r {
+            Ok(s) => s,
+            Err((loc, _)) => format!("panic@{}", panic_sig(&loc)),
+        }));
+    }
+    o
+}
+
+fn balanced_words(u: &mut Src, max_pairs: usize) -> (Vec<u64>, usize) {
+    let n = u.len_biased(max_pairs, &[0, 1, 31, 32, 33, 255, 256, 257, 2047, 2048, 2049]);
+    let coins = u.bytes((2 * n).div_ceil(8).min(160));
+    let bias = u.below(3);
+    let mut words = vec![0u64; (2 * n).div_ceil(64)];
+    let mut opens_left = n;
+    let mut excess = 0usize;
+    for p in 0..2 * n {
+        let c = if coins.is_empty() { 0 } else { coins[(p / 8 + (p / (8 * coins.len())) * 7) % coins.len()] >> (p % 8) & 1 };
+        let want_open = match bias {
+            0 => c == 1,
+            1 => c == 1 || p % 3 == 0, // deeper
+            _ => p % 2 == 0 || (c == 1 && p % 5 == 0), // flatter
+        };
+        let open = opens_left > 0 && (excess == 0 || want_open);
+        if open {
+            words[p / 64] |= 1u64 << (p % 64);
+            opens_left -= 1;
+            excess += 1;
+        } else {
+            excess -= 1;
+        }
+    }
+    (words, 2 * n)
+}
+
+// ---------------------------------------------------------------- replays
+
+fn replay_input(v: &Value) -> Option<Fail> {
+    let inp = &v["input"];
+    let words: Vec<u64> = inp["words_hex"].as_array().map(|a| a.iter().map(|x| u64::from_str_radix(x.as_str().unwrap_or("0"), 16).unwrap_or(0)).collect()).unwrap_or_default();
+    let off = inp["start_offset_in_16_aligned_buffer"].as_u64().unwrap_or(0) as usize;
+    let api = inp["api"].as_str().unwrap_or("").to_string();
+    let bytes = le_bytes(&words);
+    let mut buf = AlignedBuf::new(bytes.len() + 16);
+    let mut def = Deferred::default();
+    let mut st = Stats::default();
+    // run all conversions on that one slice, then report the failure of the API the replay names
+    let s_off = off % 16;
+    let r = catch(|| check_slice(&bytes, s_off, &mut buf, &mut def, &mut st));
+    match r {
+        Ok(Err(f)) => return Some(f),
+        Err((loc, msg)) => return Some(Fail::new(format!("panic@{}", panic_sig(&loc)), json!({"panic": msg, "location": loc}))),
+        Ok(Ok(())) => {}
+    }
+    // pick the named API's failure
+    let s = buf.place(s_off, &bytes);
+    let named = match api.as_str() {
+        "try_bytes_to_words" => catch(|| binary::try_bytes_to_words(s).map(|w| w.to_vec())).err().map(|(loc, msg)| ("try_bytes_to_words", loc, msg)),
+        "SemiIndex::from_bytes" => catch(|| succinctly::json::standard::SemiIndex::from_bytes(s, s).ib).err().map(|(loc, msg)| ("SemiIndex::from_bytes", loc, msg)),
+        _ => catch(|| binary::bytes_to_words_vec(s)).err().map(|(loc, msg)| ("bytes_to_words_vec", loc, msg)),
+    };
+    match named {
+        Some((a, loc, msg)) if msg.contains(MISALIGNED_PANIC) && s.as_ptr() as usize % 8 != 0 => Some(Fail::new(
+            format!("C31/{}/misaligned-slice/panic:{}", a, MISALIGNED_PANIC),
+            json!({"api": a, "start_offset_in_16_aligned_buffer": s_off, "address_mod_8": s.as_ptr() as usize % 8, "len": s.len(), "expected": whex(&words), "panic": msg, "location": loc}),
+        )),
+        Some((a, loc, msg)) => Some(Fail::new(format!("C31/{}/panic", a), json!({"panic": msg, "location": loc}))),
+        None => def.0,
+    }
+}
 
 pub fn run(cx: &mut Ctx) {
-    cx.infra("check not built");
+    cx.assume("reference model: u64::to_le_bytes / from_le_bytes loops (harness code); the target is little-endian x86_64");
+    cx.assume("'succeeds regardless of where the slice starts' is demanded of the owning conversions (bytes_to_words_vec, SemiIndex::from_bytes); try_bytes_to_words returns &[u64], which cannot refer to misaligned memory, so for a misaligned good-length slice it may answer the correct words or None but must not panic; the borrowed bytes_to_words is only called on 8-aligned input; documented bad-length panics are not called");
+    cx.assume("rebuilt-index comparison is differential (original vs rebuilt) plus the generator's own node-start list");
+    for (name, v) in cx.replays.clone() {
+        if v["kind"] == "input" {
+            let r = replay_input(&v);
+            cx.replay_outcome(&name, r);
+        }
+    }
+
+    // 1. enumerated alignment grid
+    cx.exhaustive(
+        "alignment-grid",
+        "every (word count in 0..=12 U {15,16,17,31,32,33,63,64,65,127,128,129,255,256,257,511,512,513}, start offset 0..7 in a 16-byte-aligned buffer, cut 0..7 bytes) x 3 content patterns (counting bytes, all-ones, 0x80 high bits)",
+        true,
+        |shard, nshards, st| {
+            let mut counts: Vec<usize> = (0..=12).collect();
+            counts.extend([15, 16, 17, 31, 32, 33, 63, 64, 65, 127, 128, 129, 255, 256, 257, 511, 512, 513]);
+            let mut def = Deferred::default();
+            let mut item = 0usize;
+            for &n in &counts {
+                for pat in 0..3 {
+                    item += 1;
+                    if item % nshards != shard {
+                        continue;
+                    }
+                    let words: Vec<u64> = (0..n)
+                        .map(|i| match pat {
+                            0 => u64::from_le_bytes(core::array::from_fn(|b| (i * 8 + b) as u8)),
+                            1 => u64::MAX,
+                            _ => 0x8000_0000_0000_0080u64.rotate_left(i as u32),
+                        })
+                        .collect();
+                    let mut buf = AlignedBuf::new(n * 8 + 16);
+                    st.cases += 1;
+                    st.class(&format!("words={}", if n <= 12 { n.to_string() } else { ">12".into() }));
+                    for off in 1..8 {
+                        if n >= 2 {
+                            st.nontrivial(mix64((n as u64) << 8 | (pat as u64) << 4 | off as u64));
+                        }
+                    }
+                    check_words(&words, true, &mut buf, &mut def, st)?;
+                }
+            }
+            st.class("all-8-alignments");
+            def.finish()
+        },
+    );
+
+    // 2. generated word vectors
+    let max_words = if cx.tier == Tier::Quick { 2000 } else { 20_000 };
+    cx.check(
+        "words-bytes-roundtrip",
+        RULE,
+        Budget { quick: 30_000, thorough: 200_000, max_len: 5000 },
+        |u, st| {
+            let (words, d) = bits::words(u, max_words);
+            let remainders = words.len() <= 64 || u.ratio(1, 8);
+            st.class(&format!("density-{:?}", d));
+            st.class_if(words.is_empty(), "empty");
+            st.class_if(words.len() >= 2, "misaligned-slices>=16-bytes");
+            st.class_if(remainders, "with-length-remainders");
+            st.size(words.len());
+            if words.len() >= 2 {
+                st.nontrivial(hash_words(&words));
+            }
+            st.sample(if words.len() >= 2 { "words" } else { "tiny" }, || json!({"n_words": words.len(), "density": format!("{:?}", d), "head": whex(&words[..words.len().min(3)])}));
+            st.describe(|| json!({"words_hex": whex(&words), "n_words": words.len(), "note": "bytes = LE(words) placed at offsets 0..7 of a 16-aligned buffer"}));
+            let mut buf = AlignedBuf::new(words.len() * 8 + 16);
+            let mut def = Deferred::default();
+            check_words(&words, remainders, &mut buf, &mut def, st)?;
+            def.finish()
+        },
+    );
+    cx.require_class("words-bytes-roundtrip", "misaligned-slices>=16-bytes", 20);
+    cx.require_class("words-bytes-roundtrip", "with-length-remainders", 20);
+
+    // 3. rebuilt JSON index
+    let max_repeat = if cx.tier == Tier::Quick { 400 } else { 6000 };
+    cx.check(
+        "rebuilt-json-index",
+        RULE,
+        Budget { quick: 50_000, thorough: 400_000, max_len: 3000 },
+        |u, st| {
+            let doc = gen_doc(u, max_repeat);
+            let off_ib = u.below(8);
+            let off_bp = u.below(8);
+            let probes: Vec<usize> = (0..40).map(|_| u.range(0, 1 << 20)).collect();
+            let nodes = doc.starts.len();
+            st.class_if(nodes >= 10, "nodes>=10");
+            st.class_if(nodes == 1, "scalar-root");
+            st.class_if(doc.text.len() > 64, "ib>1-word");
+            st.class_if(doc.text.len() > 512, "ib>8-words");
+            st.class_if(doc.text.len() > 4096, "ib>64-words");
+            st.class_if(2 * nodes > 512, "bp>8-words");
+            st.class_if(off_ib != 0 || off_bp != 0, "misaligned-parts");
+            st.class_if(doc.text.len() <= 1500, "dense-queries");
+            st.size(doc.text.len());
+            if nodes >= 10 {
+                st.nontrivial(mix64(hash_bytes(&doc.text) ^ (off_ib as u64) << 4 ^ off_bp as u64));
+            }
+            st.sample(if nodes >= 10 { "doc" } else { "small-doc" }, || json!({"json": show_bytes(&doc.text[..doc.text.len().min(120)]), "len": doc.text.len(), "nodes": nodes, "ib_offset": off_ib, "bp_offset": off_bp}));
+            st.describe(|| json!({"json_hex": hex(&doc.text), "json": show_bytes(&doc.text), "ib_bytes_offset": off_ib, "bp_bytes_offset": off_bp, "probes": probes}));
+            check_doc(&doc, off_ib, off_bp, &probes, st)
+        },
+    );
+    for cl in ["nodes>=10", "ib>8-words", "ib>64-words", "bp>8-words", "misaligned-parts", "scalar-root"] {
+        cx.require_class("rebuilt-json-index", cl, 20);
+    }
+
+    // 4. BalancedParens::from_words vs new
+    let max_pairs = if cx.tier == Tier::Quick { 3000 } else { 40_000 };
+    cx.check(
+        "rebuilt-bp",
+        "balanced sequences (0..=3000 pairs; deep/flat/random shapes) and raw G-bits words with len anywhere in 0..=64*words (stray bits past len kept): BalancedParens::new(words,len) vs from_words(Vec after byte round trip) vs from_words(&[u64] view of the serialized bytes) on len/total_ones/is_open/rank/excess/find_close/find_open/enclose/first_child/next_sibling/parent/depth/subtree_size/select0 at every position (<=1200 bits) or 200 probes + boundaries",
+        Budget { quick: 60_000, thorough: 400_000, max_len: 2500 },
+        |u, st| {
+            let raw = u.ratio(1, 3);
+            let (words, len) = if raw {
+                // the documented tolerance is for stray bits in the FINAL word; surplus
+                // whole words beyond len are outside what from_words/new promise, so trim
+                let (mut w, _) = bits::words(u, 60);
+                let l = bits::bit_len(u, w.len());
+                w.truncate(l.div_ceil(64));
+                (w, l)
+            } else {
+                balanced_words(u, max_pairs)
+            };
+            let stray = (len..words.len() * 64).any(|i| bits::bit(&words, i));
+            st.class(if raw { "raw-words" } else { "balanced" });
+            st.class_if(stray, "stray-bits-past-len");
+            st.class_if(len > 512, "len>512");
+            st.class_if(len > 4096, "len>4096");
+            st.size(len);
+            if len >= 20 {
+                st.nontrivial(mix64(hash_words(&words) ^ len as u64));
+            }
+            st.class_if(len >= 20, "nontrivial");
+            st.sample(if raw { "raw" } else { "balanced" }, || json!({"n_words": words.len(), "len": len, "head": whex(&words[..words.len().min(3)])}));
+            st.describe(|| json!({"words_hex": whex(&words), "n_words": words.len(), "len": len}));
+            let pts: Vec<usize> = if len <= 1200 {
+                (0..len + 3).collect()
+            } else {
+                let mut v: Vec<usize> = (0..200).map(|_| u.range(0, len + 1)).collect();
+                v.extend([0, 1, len - 1, len, len + 1, 63, 64, 65, 511, 512, 513]);
+                v
+            };
+            let a = BalancedParens::new(words.clone(), len);
+            let oa = observe_bp(&a, &pts);
+            let bytes = binary::words_to_bytes(&words).to_vec();
+            let mut buf = AlignedBuf::new(bytes.len() + 16);
+            let s = buf.place(*u.pick(&[0usize, 8]), &bytes);
+            let view: &[u64] = binary::bytes_to_words(s);
+            let b = BalancedParens::from_words(view, len);
+            let ob = observe_bp(&b, &pts);
+            let c = BalancedParens::from_words(le_words(&bytes), len);
+            let oc = observe_bp(&c, &pts);
+            st.evals(3 * oa.len() as u64);
+            let info = || json!({"words_hex": whex(&words), "n_words": words.len(), "len": len});
+            if let Some((q, x, y)) = first_diff(&oa, &ob) {
+                fail!(format!("C31/bp-from_words-borrowed-vs-new/{}", family(&q)), {"case": info(), "query": q, "new": x, "from_words": y});
+            }
+            if let Some((q, x, y)) = first_diff(&oa, &oc) {
+                fail!(format!("C31/bp-from_words-owned-vs-new/{}", family(&q)), {"case": info(), "query": q, "new": x, "from_words": y});
+            }
+            Ok(())
+        },
+    );
+    for cl in ["balanced", "raw-words", "stray-bits-past-len", "len>512", "len>4096", "nontrivial"] {
+        cx.require_class("rebuilt-bp", cl, 20);
+    }
 }
